@@ -198,14 +198,18 @@ static Scenario make_c20_shrink(std::map<std::string, long> const&)
         point();
       }
       w.vars["shrunk"] = should ? 1 : 0;
+      if (s.c("park", 0)) opx::park(); // stays alive: its context (and backend buffer) can be inspected after the drain
     });
-  sc.check = [](World& w, Scenario const&)
+  sc.check = [](World& w, Scenario const& s)
   {
     std::map<int, std::vector<std::string>> exp;
     for (auto const& e : w.events)
       if (e.rfind("done ", 0) == 0) exp[1].push_back(e.substr(5));
     check_delivery(w, 1, exp, "lost-duplicated-or-reordered");
-    if (context_count() != 0) w.fail("contexts-not-reclaimed", std::to_string(context_count()) + " contexts retained");
+    size_t const want_ctx = s.c("park", 0) ? 1 : 0;
+    if (context_count() != want_ctx) w.fail("contexts-not-reclaimed", std::to_string(context_count()) + " contexts retained, expected " + std::to_string(want_ctx));
+    // (whether the backend also shrinks its own buffer for the thread is not part of the property: a first version of this
+    // check demanded it and raised a false alarm - the request is only honoured when that buffer is empty at the right time)
   };
   return sc;
 }
